@@ -156,8 +156,8 @@ package sender
 //@ func (*sender.mapStruct).ptr
 //@   ensures [length] err == nil ==> len(result) == max(l, 0)
 //@ func (*sender.Transfer).simpleSendToken
-//@   at[C17] (io.Writer).Write: assert [chunk-within-frame-limit] len(arg1) <= 262144
+//@   at[C17] (io.Writer).Write: assert [chunk-within-frame-limit] len(arg0) <= 262144
 //@ func (*sender.Transfer).sendFile
-//@   at[C17] (io.Writer).Write: assert [chunk-within-frame-limit] len(arg1) <= 262144
+//@   at[C17] (io.Writer).Write: assert [chunk-within-frame-limit] len(arg0) <= 262144
 //@ func (*sender.Transfer).hashSearch
-//@   at[C17] (io.Writer).Write: assert [checksum-within-frame-limit] len(arg1) <= 262144
+//@   at[C17] (io.Writer).Write: assert [checksum-within-frame-limit] len(arg0) <= 262144
